@@ -438,6 +438,7 @@ def run_all(cx):
         if f['kind'] == 'Closure':
             continue
         it = Interp(cx.facts, MODELS)
+        it.root_fn = f
         try:
             if f['path'].startswith('<piecewise::PiecewiseEvaluator<') and f['path'].endswith('>::evaluate'):
                 # the evaluator's fields are private and every store to `tail` is a suffix of
@@ -567,6 +568,17 @@ def extra_closure_steps(cx, f, it, ret, st, args, problems):
             pass
 
 
+def private_helper_in_context(it, problems):
+    f = getattr(it, 'root_fn', None)
+    if f is None or f.get('kind') != 'Fn' or f.get('pub'):
+        return False
+    callers = {c.split('::{closure')[0] for c in CALLERS.get(f['path'], ())} - {f['path']}
+    if not callers:
+        return False
+    bad = {g['path'] for g, _ in problems}
+    return not (callers & bad)
+
+
 def check_inventory(cx, rep):
     sites, entered, problems, invariants = run_all(cx)
     for f, why in problems:
@@ -582,6 +594,11 @@ def check_inventory(cx, rep):
     seen = {}
     classes = {}
     const_sites = set()
+    ctx_skipped = {}
+    reached = {}
+    for it, s in sites:
+        r = getattr(it, 'root_fn', None)
+        reached.setdefault((s['fn'], s['line'], s['kind']), set()).add(r['path'] if r else None)
     for it, s in sites:
         if s['expanded']:
             continue
@@ -591,10 +608,20 @@ def check_inventory(cx, rep):
             continue
         k = site_key(s)
         cls, why = classify(it, s, invariants)
+        if cls is None and private_helper_in_context(it, problems):
+            # a private free function is only ever run by its callers in this crate: its sites are decided in
+            # each calling context (the callers' analyses inline it), not for arbitrary arguments
+            ctx_skipped[k] = s
+            continue
         prev = seen.get(k)
         # the same site can be reached from several roots (inlining); it must be discharged in every context
         if prev is None or (prev[0] is not None and cls is None):
             seen[k] = (cls, why, s)
+    for k, s in ctx_skipped.items():
+        roots = reached.get((s['fn'], s['line'], s['kind']), set()) - {s['fn'].split('::{closure')[0]}
+        if not roots:
+            # the helper's site was never seen from a caller: nothing decided it
+            rep.ob('panic', 'ctx:%s' % (k,), False, 'site of a private helper that no analysed caller reaches', fn=s['fn'], line=s['line'], key=k)
     for k, (cls, why, s) in seen.items():
         classes[cls or 'UNDISCHARGED'] = classes.get(cls or 'UNDISCHARGED', 0) + 1
         f = cx.facts.fn(s['fn']) if cx.facts.has_fn(s['fn']) else None
